@@ -45,7 +45,8 @@ def vcore_check(sub, level="exploration", extra_steps=None):
     def steps(ctx):
         res = [run_monitor(ctx, _bin(ctx, "vcore"), sub)]
         for s in extra_steps or []:
-            res.append(s(ctx))
+            r = s(ctx)
+            res += r if isinstance(r, list) else [r]
         return res
 
     def replay(ctx, rp):
@@ -61,6 +62,167 @@ def vcore_check(sub, level="exploration", extra_steps=None):
             return rc, so, se, secs
 
     return {"build": vcore_build, "steps": steps, "replay": replay, "level": level}
+
+
+# ---------------------------------------------------------------------- sanitizer layers (Miri, ASan)
+
+MIRIFLAGS = "-Zmiri-disable-isolation -Zmiri-ignore-leaks"
+ASAN_TARGET = "x86_64-unknown-linux-gnu"
+
+
+def _layer_result(ctx, tool, runs, cases, reports, note=""):
+    r = _empty_result(ctx)
+    r["coverage"]["evaluations"] = cases
+    r["layers"] = [{"tool": tool, "processes": runs, "cases": cases, "reports": len(reports), "note": note}]
+    r["violations"] = reports
+    r["violations_total"] = len(reports)
+    return r
+
+
+def _san_report(pid, tool, argv, se):
+    import re
+    # first sanitizer diagnostic line + first in-repo / in-harness frame
+    first = ""
+    for l in se.splitlines():
+        if l.startswith("error:") or "ERROR: AddressSanitizer" in l or "WARNING: ThreadSanitizer" in l or "Undefined Behavior" in l:
+            first = l.strip()
+            break
+    m = re.search(r"(/repo/[^\s:]+:\d+)", se)
+    site = m.group(1) if m else ""
+    kind = re.sub(r"[^A-Za-z0-9]+", "-", first)[:60].strip("-") or "report"
+    return {"signature": f"{pid}:{tool}:{kind}:{site}", "detail": f"{tool} reported on `{' '.join(argv)}`: {first}\n" + "\n".join(se.splitlines()[-25:]),
+            "replay": argv, "binary": f"{tool}:vcore"}
+
+
+def miri_build(ctx):
+    e = ctx["env_base"]()
+    e["MIRIFLAGS"] = MIRIFLAGS
+    cmd = ["cargo", "+nightly", "miri", "run", "--offline", "-p", "vcore", "--", "san", "--focus", "c19", "--budget", "1"]
+    rc, so, se, secs = ctx["run"](cmd, timeout=3600, env=e)
+    if rc != 0:
+        raise ctx["Inconclusive"]("Miri build/warm-up failed:\n" + "\n".join(se.splitlines()[-15:]))
+    ctx["log"](f"[build] miri vcore ok in {secs:.1f}s")
+
+
+def miri_layer(ctx, jobs, pid=None, workers=16):
+    """jobs: list of argv (after `vcore`); each runs in its own Miri process"""
+    pid = pid or ctx["pid"]
+    miri_build(ctx)
+    # run the already built binary through cargo-miri's runner (no cargo lock contention between shards)
+    import glob
+    sysroot = None
+    def one(job):
+        i, argv = job
+        out = os.path.join(ctx["work"], f"{pid}.{ctx['tier']}.miri.{i}.json")
+        if os.path.exists(out):
+            os.remove(out)
+        e = ctx["env_base"]()
+        e["MIRIFLAGS"] = MIRIFLAGS
+        cmd = ["cargo", "+nightly", "miri", "run", "--offline", "-p", "vcore", "--"] + argv + ["--tier", ctx["tier"], "--seed", str(ctx["seed"]), "--out", out]
+        rc, so, se, secs = ctx["run"](cmd, timeout=3 * 3600, env=e)
+        if rc is None:
+            return ("timeout", argv, None, se)
+        if rc == 0 and os.path.exists(out):
+            return ("ok", argv, json.load(open(out)), se)
+        if "Undefined Behavior" in se or "error: unsupported operation" in se or "data race" in se.lower() or "error: memory leaked" in se or "error: abnormal termination" in se or "error: deadlock" in se:
+            return ("report", argv, None, se)
+        return ("died", argv, None, se)
+    outs = _pool(list(enumerate(jobs)), one, workers=workers)
+    results = []
+    reports = []
+    cases = 0
+    inconcl = []
+    for status, argv, r, se in outs:
+        if status == "ok":
+            cases += r["coverage"]["evaluations"]
+            for v in r["violations"]:
+                v["binary"] = "miri:vcore"
+            r["coverage"]["evaluations"] = 0  # counted in the layer entry, not as native evaluations
+            r["coverage"]["distinct_nontrivial"] = 0
+            r["coverage"]["samples"] = []
+            results.append(r)
+        elif status == "report":
+            if "unsupported operation" in se:
+                inconcl.append(f"Miri cannot execute `{' '.join(argv)}`: " + next((l for l in se.splitlines() if "unsupported operation" in l), ""))
+            else:
+                reports.append(_san_report(pid, "miri", argv, se))
+        elif status == "timeout":
+            inconcl.append(f"watchdog: Miri run `{' '.join(argv)}` exceeded 3 h")
+        else:
+            inconcl.append(f"Miri run `{' '.join(argv)}` ended abnormally: {se[-300:]}")
+    lr = _layer_result(ctx, "miri (cargo +nightly miri run, " + MIRIFLAGS + ")", len(jobs), cases, reports,
+                       "same per-case monitors as the native run, interpreted: undefined behaviour, data races, invalid memory accesses in any code reached (incl. dependencies)")
+    lr["coverage"]["evaluations"] = 0
+    lr["inconclusive"] = inconcl
+    return results + [lr]
+
+
+def asan_build(ctx):
+    e = {"RUSTFLAGS": "-Zsanitizer=address -Cforce-frame-pointers=yes --cfg ancwrd1_ipp_rs_verif"}
+    ctx["cargo_build"]("vcore", toolchain="nightly", target=ASAN_TARGET, extra_env=e,
+                       extra_args=["--target-dir", os.path.join(ctx["harness"], "target", "asan")])
+    return os.path.join(ctx["harness"], "target", "asan", ASAN_TARGET, "release", "vcore")
+
+
+def asan_layer(ctx, jobs, pid=None, workers=16):
+    pid = pid or ctx["pid"]
+    binary = asan_build(ctx)
+    def one(job):
+        i, argv = job
+        out = os.path.join(ctx["work"], f"{pid}.{ctx['tier']}.asan.{i}.json")
+        if os.path.exists(out):
+            os.remove(out)
+        e = ctx["env_base"]()
+        e["ASAN_OPTIONS"] = "halt_on_error=1:abort_on_error=0:detect_leaks=0:exitcode=66"
+        cmd = [binary] + argv + ["--tier", ctx["tier"], "--seed", str(ctx["seed"]), "--out", out]
+        rc, so, se, secs = ctx["run"](cmd, timeout=3 * 3600, env=e)
+        if rc == 0 and os.path.exists(out):
+            return ("ok", argv, json.load(open(out)), se)
+        if "AddressSanitizer" in se:
+            return ("report", argv, None, se)
+        if rc is None:
+            return ("timeout", argv, None, se)
+        return ("died", argv, None, se)
+    outs = _pool(list(enumerate(jobs)), one, workers=workers)
+    results, reports, inconcl, cases = [], [], [], 0
+    for status, argv, r, se in outs:
+        if status == "ok":
+            cases += r["coverage"]["evaluations"]
+            for v in r["violations"]:
+                v["binary"] = "asan:vcore"
+            r["coverage"]["evaluations"] = 0
+            r["coverage"]["distinct_nontrivial"] = 0
+            r["coverage"]["samples"] = []
+            results.append(r)
+        elif status == "report":
+            reports.append(_san_report(pid, "asan", argv, se))
+        elif status == "timeout":
+            inconcl.append(f"watchdog: ASan run `{' '.join(argv)}` exceeded 3 h")
+        else:
+            ab = _parse_abort(se)
+            if ab and ab[3]:
+                continue  # stack overflow on a known bomb shape is judged by the native layer, not here
+            inconcl.append(f"ASan run `{' '.join(argv)}` ended abnormally: {se[-300:]}")
+    lr = _layer_result(ctx, "AddressSanitizer (rustc -Zsanitizer=address, nightly, release)", len(jobs), cases, reports,
+                       "same per-case monitors as the native run under ASan: heap/stack/global out-of-bounds, use-after-free, double free in any code reached")
+    lr["coverage"]["evaluations"] = 0
+    lr["inconclusive"] = inconcl
+    return results + [lr]
+
+
+def san_jobs(focus, shards, budget):
+    return [["san", "--focus", focus, "--shard", str(i), "--nshards", str(shards), "--budget", str(budget)] for i in range(shards)]
+
+
+def with_sanitizers(focus):
+    """thorough-tier extra steps: 16 Miri shards and an ASan run of the property's compact workload"""
+    def step(ctx):
+        if ctx["tier"] != "thorough":
+            return _empty_result(ctx)
+        res = miri_layer(ctx, san_jobs(focus, 16, 12))
+        res += asan_layer(ctx, san_jobs(focus, 16, 4000))
+        return res
+    return step
 
 
 # ---------------------------------------------------------------------- C02
@@ -172,6 +334,33 @@ def c02_steps(ctx):
     for fam in C02_FAMILIES:
         n = 16 if (thorough or fam in ("tails", "grid", "mutations")) else 4
         jobs += [(fam, i, n) for i in range(n)]
+    # sanitizer layer, started first and joined at the end: quick = one Miri shard over grid / with-language / tokens,
+    # thorough = 16 Miri shards (+ mutations) and an ASan build over all families
+    import threading
+    layer_out = []
+    def layers():
+        try:
+            if thorough:
+                mj = []
+                for i in range(16):
+                    fam = ["grid", "withlang", "tokens", "mutations"][i % 4]
+                    n = {"grid": 460, "withlang": 25, "tokens": 580, "mutations": 500}[fam]
+                    mj.append(["c02w", "--family", fam, "--shard", str(i), "--nshards", str(n), "--lean"])
+                layer_out.extend(miri_layer(ctx, mj, pid="C02"))
+                aj = []
+                for fam in C02_FAMILIES:
+                    aj += [["c02w", "--family", fam, "--shard", str(i), "--nshards", "16"] for i in range(16)]
+                layer_out.extend(asan_layer(ctx, aj, pid="C02"))
+            else:
+                seed = ctx["seed"]
+                mj = [["c02w", "--family", "grid", "--shard", str(seed % 1382), "--nshards", "1382", "--lean"],
+                      ["c02w", "--family", "withlang", "--shard", str(seed % 74), "--nshards", "74", "--lean"],
+                      ["c02w", "--family", "tokens", "--shard", str(seed % 1747), "--nshards", "1747", "--lean"]]
+                layer_out.extend(miri_layer(ctx, mj, pid="C02", workers=3))
+        except Exception as e:  # Inconclusive from the build etc.
+            layer_out.append(e)
+    lt = threading.Thread(target=layers)
+    lt.start()
     results = _pool(jobs, lambda j: c02_worker(ctx, *j))
     # structural bombs: each (family, size, phase) in its own process
     sizes = [4096 << i for i in range(9)] if thorough else [16384, 262144, 1048576]
@@ -195,6 +384,11 @@ def c02_steps(ctx):
             b["max_ok"] = max(b["max_ok"], size)
         elif outcome not in ("timeout", "died"):
             b["min_fail"] = size if b["min_fail"] is None else min(b["min_fail"], size)
+    lt.join()
+    for x in layer_out:
+        if isinstance(x, Exception):
+            raise x
+        results.append(x)
     head = results[0]
     head["coverage"]["rule"] = (
         "Hostile corpus, every input through the blocking parser (scripted source counting reads after EOF), the async parser (manual executor: "
@@ -423,13 +617,13 @@ CHECKS = {
     "C18": {"build": c18_build, "steps": c18_steps, "replay": vnet_replay, "level": "exploration"},
     "C20": {"build": vserde_build, "steps": vserde_steps, "replay": vserde_replay, "level": "exploration"},
     "C02": {"build": vcore_build, "steps": c02_steps, "replay": c02_replay, "level": "exploration"},
-    "C01": vcore_check("c01"),
-    "C03": vcore_check("c03"),
-    "C04": vcore_check("c04"),
-    "C05": vcore_check("c05"),
-    "C06": vcore_check("c06"),
+    "C01": vcore_check("c01", extra_steps=[with_sanitizers("c01")]),
+    "C03": vcore_check("c03", extra_steps=[with_sanitizers("c03")]),
+    "C04": vcore_check("c04", extra_steps=[with_sanitizers("c04")]),
+    "C05": vcore_check("c05", extra_steps=[with_sanitizers("c05")]),
+    "C06": vcore_check("c06", extra_steps=[with_sanitizers("c06")]),
     "C07": vcore_check("c07", level="fault_enumeration"),
-    "C08": vcore_check("c08"),
+    "C08": vcore_check("c08", extra_steps=[with_sanitizers("c08")]),
     "C09": vcore_check("c09"),
     "C10": vcore_check("c10"),
     "C13": vcore_check("c13"),
@@ -437,5 +631,5 @@ CHECKS = {
     "C15": dict(vcore_check("c15", extra_steps=[c15_cachegrind]), replay=c15_replay),
     "C16": vcore_check("c16"),
     "C17": vcore_check("c17"),
-    "C19": vcore_check("c19"),
+    "C19": vcore_check("c19", extra_steps=[with_sanitizers("c19")]),
 }
